@@ -308,8 +308,10 @@ def chain_force_pts(out, comp, prob, rng, eps, tag):
 
 def verdict(desc):
     out = Outcome()
+    from oasv.models import run_coupled
+
     prob = build_model(desc)
-    prob.run_model()
+    run_coupled(prob) if desc["topo"] == "aerostruct" else prob.run_model()
     rng = np.random.default_rng(desc["seed"])
     eps = desc["eps"]
     ncomp = 0
@@ -327,6 +329,18 @@ def verdict(desc):
             e = eps
             if cname == "CreateRHS" or cname == "VonMisesTube":
                 e = max(eps, 1e-3)  # keep away from the documented non-smooth points
+            if cname == "WaveDrag" and comp.options["surface"].get("with_wave"):
+                # documented non-smooth point: wave-drag onset.  Margin |M - Mcrit| >= 0.03 (both sides are generated)
+                w, ls, ch = ins["widths"], ins["lengths_spanwise"], ins["chords"]
+                area = 0.5 * (ch[:-1] + ch[1:]) * w
+                cs = float(np.sum(w / ls * area) / np.sum(area))
+                tc = float(np.sum(ins["t_over_c"] * area) / np.sum(area))
+                mcrit = 0.95 / cs - tc / cs ** 2 - float(ins["CL"][0]) / (10 * cs ** 3) - (0.1 / 80.0) ** (1.0 / 3.0)
+                margin = float(ins["Mach_number"][0]) - mcrit
+                if abs(margin) < 0.03:
+                    out.label("wave-onset-margin-skipped")
+                    continue
+                out.label("wave-above-onset" if margin > 0 else "wave-below-onset")
             n = insitu.check_explicit(out, comp, ins, sorted(outs), rng, e, comp.pathname)
         if n:
             ncomp += 1
